@@ -490,7 +490,8 @@ pub fn shard<E: Engine>(a: &ShardArgs) -> Json {
             std::fs::write(&path, rj.to_pretty()).expect("write replay");
             violations.push(crate::jobj! {"seed" => seed, "index" => i, "violation" => min_v.to_json(), "replay" => path});
             // a new class stops this shard: on a broken tree nearly every run fails
-            if violations.len() >= 3 {
+            let max_classes: usize = std::env::var("XEHSIM_MAX_CLASSES").ok().and_then(|s| s.parse().ok()).unwrap_or(3);
+            if violations.len() >= max_classes {
                 stopped_early = true;
                 break;
             }
